@@ -101,7 +101,7 @@ class Executor(ExecFull):
             raise OutOfSubset("inline recursion depth")
         env = self.bind_args(fn.node, args, kwargs, {}, fn.globals)
         fr = Frame(env, fn.globals, fn.name, contract=c)
-        is_gen = any(isinstance(x, (ast.Yield, ast.YieldFrom)) for x in ast.walk(fn.node))
+        is_gen = _is_generator(fn.node)
         if is_gen:
             ety = c.yields or VAL
             fr.yielded = SV(z3.Empty(SEQ(ety).sort()), SEQ(ety))
@@ -203,9 +203,15 @@ class Executor(ExecFull):
 
 
 def _is_generator(fnode):
-    for x in ast.walk(fnode):
+    """does the function itself (not a function nested in it) contain a yield?"""
+    stack = list(fnode.body)
+    while stack:
+        x = stack.pop()
         if isinstance(x, (ast.Yield, ast.YieldFrom)):
             return True
+        if isinstance(x, (ast.FunctionDef, ast.Lambda, ast.ClassDef)):
+            continue
+        stack.extend(ast.iter_child_nodes(x))
     return False
 
 
@@ -305,6 +311,7 @@ def run_one_path(ex, world, fn, c):
     for nm, text in c.lets.items():
         fr.env[nm] = ex.eval_value_clause(text, fr)
     old = {nm: ex.snapshot(v) for nm, v in env.items()}
+    when_at_entry = {exc: ex.eval_clause(spec["when"], fr) for exc, spec in c.raises.items()}
     is_gen = _is_generator(fn.node)
     if is_gen:
         ety = c.yields or VAL
@@ -330,14 +337,14 @@ def run_one_path(ex, world, fn, c):
                 return
             ex.oblige("no-exception", z3.BoolVal(False), fn.node, tag=f"[{raised}]")
             return
-        ex.oblige("raises-when", ex.eval_clause(spec["when"], _entry_frame(fr, env, fn, c)), fn.node, tag=f"[{raised}]")
+        ex.oblige("raises-when", when_at_entry[raised], fn.node, tag=f"[{raised}]")
         for i, e in enumerate(spec.get("ensures", [])):
             ex.oblige("raises-post", ex.eval_clause(e, pfr), fn.node, tag=f"[{raised}#{i}]")
         check_frame(ex, c, spec.get("modifies", []), env, old, fn, fr)
         return
     for exc, spec in c.raises.items():
         # returning normally although the contract says it raises here
-        ex.oblige("returns-when", z3.Not(ex.eval_clause(spec["when"], _entry_frame(fr, env, fn, c))), fn.node, tag=f"[{exc}]")
+        ex.oblige("returns-when", z3.Not(when_at_entry[exc]), fn.node, tag=f"[{exc}]")
     if is_gen:
         result = GenResult(fr.yielded)
         post_env["result"] = fr.yielded
